@@ -349,7 +349,41 @@ def run(chk, prog):
                                     where(x, hf), "a helper of the thermal balance writes `%s`" % C.pretty(v),
                                     function=hf["full"], construct="temperature literal")
             n2 += literal_arms(chk, hf, metal_ions)
-    chk.floor("P3", n3, 2)
+    # P3 (every exit): the bounds are a property of what is *stored*: every path of calculate_temperature to its normal
+    # exit passes a set_temperature call (its own, or one in a helper of this unit that sets it on all of its paths), so no
+    # path leaves the temperature the cell had on entry - an input that is not bounded by [500 K] u [4000 K, 30000 K]
+    def sets_on_all_paths(hf, depth=0):
+        gh = C.CFG(hf)
+        through = {nd.id for nd in gh.nodes if nd.ast is not None and nd.kind in ("stmt", "decl", "return", "branch") and
+                   nd.ast.get("k") not in ("Abort", "RangeHasNext") and
+                   any(C.is_call(x, name="set_temperature") for x in
+                       C.walk(nd.ast if nd.kind != "decl" else {"k": "Decl", "d": nd.ast["d"]}))}
+        return bool(through) and gh.all_paths_pass(gh.entry.id, through)
+    setting_helpers = set()
+    for hn in sorted(h for h in helper_names if h):
+        for hf in tu.functions.get(hn, []):
+            if hf.get("body") and (hf.get("file") or "").endswith("TemperatureCalculator.cpp") and sets_on_all_paths(hf):
+                setting_helpers.add(hn)
+    through = set()
+    for nd in g.nodes:
+        if nd.ast is None or nd.kind not in ("stmt", "decl", "return", "branch") or nd.ast.get("k") in ("Abort", "RangeHasNext"):
+            continue
+        for x in C.walk(nd.ast if nd.kind != "decl" else {"k": "Decl", "d": nd.ast["d"]}):
+            if C.is_call(x, name="set_temperature") or (x.get("k") == "Call" and x.get("fn") in setting_helpers):
+                through.add(nd.id)
+    n3 += 1
+    okk = bool(through) and g.all_paths_pass(g.entry.id, through)
+    bad_path = ""
+    if not okk and through:
+        # a witness: the lines of a path that reaches the exit around every set_temperature
+        reach = g.reachable(g.entry.id, avoid=through)
+        bad_path = str(sorted({g.nodes[i].line() for i in reach if g.nodes[i].line()})[-6:])
+    chk.require(okk, "P3", "every path of calculate_temperature to its exit stores a temperature", where(tf),
+                "a path reaches the end of the function without calling set_temperature (last lines on it: %s): the cell keeps "
+                "the temperature it had on entry, which is an input and not bounded by the clamps (500 K / minimum ionized "
+                "temperature / 30000 K), while its ionic fractions were overwritten" % bad_path, function=tf["full"],
+                construct="temperature stored on every path")
+    chk.floor("P3", n3, 3)
 
     hydrogen(chk, unit)
     quadratic_arms(chk, unit)
